@@ -42,11 +42,21 @@ func NewNumericRangeSearcher(indexReader search.Reader,
 	}
 
 	// find all the ranges
-	if !inclusiveMin && minInt64 != math.MaxInt64 {
-		minInt64++
+	// an unbounded end has no end point to exclude, and nothing lies beyond
+	// the extreme values: an exclusive end there leaves an empty range
+	if !inclusiveMin && !math.IsInf(min, -1) {
+		if minInt64 == math.MaxInt64 {
+			maxInt64 = math.MinInt64
+		} else {
+			minInt64++
+		}
 	}
-	if !inclusiveMax && maxInt64 != math.MinInt64 {
-		maxInt64--
+	if !inclusiveMax && !math.IsInf(max, 1) {
+		if maxInt64 == math.MinInt64 {
+			minInt64 = math.MaxInt64
+		} else {
+			maxInt64--
+		}
 	}
 
 	var fieldDict segment.DictionaryLookup
